@@ -7,7 +7,7 @@ import sys, os, json, subprocess, shutil
 VERIF = os.path.dirname(os.path.abspath(__file__))
 ENV = dict(os.environ, GOFLAGS="-mod=mod", GOPROXY="off", GOSUMDB="off", GOTOOLCHAIN="local")
 def sh(cmd, cwd):
-    p = subprocess.run(cmd, shell=True, cwd=cwd, env=ENV, capture_output=True, text=True, timeout=1800)
+    p = subprocess.run(cmd, shell=True, cwd=cwd, env=ENV, capture_output=True, text=True, errors="replace", timeout=1800)
     return p.returncode, (p.stdout + p.stderr)[-1500:]
 def main():
     src, sid = sys.argv[1], sys.argv[2]
